@@ -282,7 +282,7 @@ func init() {
 				}
 			}
 			// small-alphabet streams a little longer than the 64 KiB window, one byte per source read
-			for i := 0; i < tierN(tier, 120, 1500); i++ {
+			for i := 0; i < tierN(tier, 400, 4000); i++ {
 				alpha := 2 + r.Intn(7)
 				d := make([]byte, 65536+100+r.Intn(700))
 				for q := range d {
